@@ -283,3 +283,144 @@ Proof.
 Qed.
 End SettleStep.
 End Settle.
+
+(* ---------- from ANY state the safety theorems allow ---------- *)
+(* Whatever happened before (stale answers, faults, reorgs): a ghost whose
+   blocks belong to versions of a history containing the final chain splits
+   into batches that are the final chain's (below the fork) and orphaned
+   batches (above it).  Needs "block hashes identify blocks". *)
+Section Split.
+Variable c : tcfg.
+Variable H : list chain.
+Variable ch : chain.
+Hypothesis HH : history_ok H.
+Hypothesis Hin : In ch H.
+Hypothesis Hid : hash_identifies H.
+
+Lemma ghost_split : forall g,
+  wf_ghost c g -> Forall (in_history H) (concat g) ->
+  exists p q, g = p ++ q /\ Forall (on_chain true ch) (concat p) /\ Forall (orphan ch) q.
+Proof.
+  intros g. induction g as [|b g IH] using rev_ind; intros Hw Hb.
+  - exists [], []. split; [reflexivity|]. split; constructor.
+  - assert (Hbn : b <> []).
+    { destruct Hw as (Hne & _). rewrite Forall_forall in Hne. apply Hne. apply in_or_app. right. left. reflexivity. }
+    destruct (exists_last Hbn) as (b' & z & Eb).
+    assert (Ez : last_blk b = z) by (rewrite Eb; apply last_blk_last).
+    assert (Ec : concat (g ++ [b]) = (concat g ++ b') ++ [z]).
+    { rewrite concat_snoc, Eb, app_assoc. reflexivity. }
+    assert (Hzin : in_history H z).
+    { rewrite Forall_forall in Hb. apply Hb. rewrite Ec. apply in_or_app. right. left. reflexivity. }
+    assert (Hcase : (exists x, blk_at ch (b_num z) = Some x /\ b_hash z = b_hash x) \/ orphan ch b).
+    { destruct (blk_at ch (b_num z)) as [x|] eqn:Ex.
+      - destruct (N.eq_dec (b_hash z) (b_hash x)) as [E|E].
+        + left. exists x. split; [reflexivity|exact E].
+        + right. intros x' Hx'. rewrite Ez, Ex in Hx'. inversion Hx'; subst. rewrite Ez. exact E.
+      - right. intros x' Hx'. rewrite Ez, Ex in Hx'. discriminate. }
+    destruct Hcase as [(x & Hx & Eh)|Hor].
+    + (* the last block is the final chain's: so is everything before it *)
+      destruct Hzin as (chz & Hchz & Hz).
+      assert (Ezx : z = x).
+      { apply (Hid chz ch z x Hchz Hin (blk_at_in _ _ _ Hz) (blk_at_in _ _ _ Hx) Eh). }
+      subst x.
+      assert (Hs : strong_linked ((concat g ++ b') ++ [z])).
+      { rewrite <- Ec. destruct Hw as (_ & Hch & _). destruct (concat (g ++ [b])) as [|f l]; [exact I|].
+        inversion Hb; subst. apply (weak_strong H HH); assumption. }
+      rewrite Ec in Hb.
+      pose proof (back_on_final H HH ch Hin Hid _ z Hs Hb Hx) as Hon.
+      exists (g ++ [b]), []. split; [rewrite app_nil_r; reflexivity|]. split; [|constructor].
+      rewrite Ec. eapply Forall_impl; [|exact Hon]. intros y Hy. exists y. split; [exact Hy|reflexivity].
+    + destruct (IH (wf_ghost_prefix c g [b] Hw)) as (p & q & Eg & Hp & Hq).
+      { rewrite concat_snoc in Hb. apply Forall_app in Hb. apply Hb. }
+      exists p, (q ++ [b]). split; [rewrite Eg, app_assoc; reflexivity|]. split; [exact Hp|].
+      apply Forall_app. split; [exact Hq|constructor; [exact Hor|constructor]].
+Qed.
+End Split.
+
+(* C03 liveness from ANY state satisfying TaskInvH: after an arbitrary past
+   (any number of stale answers, faults, nested reorgs -- the safety theorems
+   keep TaskInvH), once the node serves the final chain [ch] and its head
+   exceeds every recorded position, the fault-free steps converge *)
+Lemma settled_any_lemma : forall c H ch,
+  cfg_ok c -> history_ok H -> In ch H -> hash_identifies H ->
+  t_deps c = [] -> (forall b, In b ch -> NoDup (map fst (b_rows b))) -> t_hashes c = true ->
+  forall d g,
+  pv c d = render c g -> wf_ghost c g -> Forall (in_history H) (concat g) ->
+  (forall y, In y (concat g) -> b_num y < clip c (height ch - 1)) ->
+  (length g <= 1000)%nat ->
+  0 < t_start c -> t_start c - 1 < clip c (height ch - 1) ->
+  exists F ln,
+    let x1 := exec_honest F (t_uniq c) (t_hashes c) ch (converge c) d None in
+    r_out x1 = Fin OConverged
+    /\ exists n g', (n <= N.to_nat (clip c (height ch - 1) - ln))%nat
+         /\ pv c (iter (hstepf c ch) n (r_db x1)) = render c g' /\ wf_ghost c g'
+         /\ Forall (on_chain (t_hashes c) ch) (concat g')
+         /\ (exists h, gpos g' = Some (clip c (height ch - 1), h))
+         /\ outside c (iter (hstepf c ch) n (r_db x1)) = outside c d.
+Proof.
+  intros c H ch Hc HH Hin Hid Hdeps Hkeys Hhs d g Hpv Hw Hb Hbelow Hlen Hs0 Hs1.
+  destruct (HH ch Hin) as [Hwf Hsmall].
+  destruct (ghost_split c H ch HH Hin Hid g Hw Hb) as (p & q & Eg & Hp & Hq). subst g.
+  assert (Hlq : (length q <= 1000)%nat) by (rewrite app_length in Hlen; lia).
+  assert (Hcl : clip c (height ch - 1) <= height ch - 1) by apply clip_le'.
+  (* the position below the fork *)
+  assert (Hpos : exists ln x, blk_at ch ln = Some x /\ at_pos c p ln /\ ln < clip c (height ch - 1)).
+  { destruct (gpos p) as [[n h]|] eqn:Gp.
+    - unfold gpos in Gp. destruct (rev p) as [|b r] eqn:Er; [discriminate|]. inversion Gp; subst.
+      apply (f_equal (@rev _)) in Er. rewrite rev_involutive in Er. cbn [rev] in Er.
+      assert (Hwp : wf_ghost c p) by (eapply wf_ghost_prefix; exact Hw).
+      pose proof Hwp as (Hne & _). rewrite Forall_forall in Hne.
+      assert (Hbn : b <> []) by (apply Hne; rewrite Er; apply in_or_app; right; left; reflexivity).
+      assert (Hl : In (last_blk b) (concat p)).
+      { rewrite Er. apply (in_concat_batch _ b); [apply in_or_app; right; left; reflexivity|apply last_blk_in; exact Hbn]. }
+      rewrite Forall_forall in Hp. destruct (Hp _ Hl) as (x & Hx & Ex).
+      exists (b_num (last_blk b)), x. split; [exact Hx|]. split.
+      + left. exists (b_hash (last_blk b)). unfold gpos. rewrite Er, rev_unit. reflexivity.
+      + apply Hbelow. rewrite concat_app. apply in_or_app. left. exact Hl.
+    - assert (Ep : p = []).
+      { unfold gpos in Gp. destruct (rev p) eqn:Er; [|discriminate].
+        apply (f_equal (@rev _)) in Er. rewrite rev_involutive in Er. exact Er. }
+      destruct (nth_error ch (N.to_nat (t_start c - 1))) as [x|] eqn:En.
+      2:{ apply nth_error_None in En. unfold height in *. lia. }
+      exists (t_start c - 1), x. split; [exact En|]. split; [right; split; [exact Ep|split; [exact Hs0|reflexivity]]|exact Hs1]. }
+  destruct Hpos as (ln & x & Hx & Hat & Hlt).
+  exists (6 * length q + 12)%nat, ln.
+  rewrite <- Hhs in Hp.
+  exact (settled_lemma c ch Hc Hwf Hsmall Hdeps Hkeys Hhs d p q ln x Hpv Hw Hp Hq Hbelow Hlq Hx Hat Hlt).
+Qed.
+
+(* C03 settled_converges: ANY past, then the settled future *)
+Lemma settled_full_lemma : forall c H ch ss d0,
+  cfg_ok c -> history_ok H -> In ch H -> hash_identifies H ->
+  t_deps c = [] -> (forall b, In b ch -> NoDup (map fst (b_rows b))) -> t_hashes c = true ->
+  TaskInvH c H d0 -> runs_sat (node_ans true H) c ss d0 ->
+  let d := run_end c ss d0 in
+  (forall x, In x (d_curs (pv c d)) -> c_num x < clip c (height ch - 1)) ->
+  (length (d_curs (pv c d)) <= 1000)%nat ->
+  0 < t_start c -> t_start c - 1 < clip c (height ch - 1) ->
+  exists F ln,
+    let x1 := exec_honest F (t_uniq c) (t_hashes c) ch (converge c) d None in
+    r_out x1 = Fin OConverged
+    /\ exists n g', (n <= N.to_nat (clip c (height ch - 1) - ln))%nat
+         /\ pv c (iter (hstepf c ch) n (r_db x1)) = render c g' /\ wf_ghost c g'
+         /\ Forall (on_chain (t_hashes c) ch) (concat g')
+         /\ (exists h, gpos g' = Some (clip c (height ch - 1), h))
+         /\ outside c (iter (hstepf c ch) n (r_db x1)) = outside c d.
+Proof.
+  intros c H ch ss d0 Hc HH Hin Hid Hdeps Hkeys Hhs Hi Hs d Hcur Hlen Hs0 Hs1.
+  destruct (hist_runs c H Hc HH ss d0 Hi Hs) as [_ (g & Hpv & Hw & Hb)]. fold d in Hpv.
+  apply (settled_any_lemma c H ch Hc HH Hin Hid Hdeps Hkeys Hhs d g Hpv Hw Hb); try assumption.
+  - intros y Hy. destruct (gpos g) as [[n h]|] eqn:Gp.
+    + pose proof (ghost_below_pos c g n h Hw Gp y Hy) as Hle.
+      assert (Hn : n < clip c (height ch - 1)).
+      { unfold gpos in Gp. destruct (rev g) as [|b r] eqn:Er; [discriminate|]. inversion Gp; subst.
+        apply (f_equal (@rev _)) in Er. rewrite rev_involutive in Er. cbn [rev] in Er.
+        apply (Hcur (bcur c b)). rewrite Hpv. cbn [render d_curs]. apply in_map. rewrite Er.
+        apply in_or_app. right. left. reflexivity. }
+      lia.
+    + assert (g = []).
+      { unfold gpos in Gp. destruct (rev g) eqn:Er; [|discriminate].
+        apply (f_equal (@rev _)) in Er. rewrite rev_involutive in Er. exact Er. }
+      subst g. destruct Hy.
+  - rewrite Hpv in Hlen. cbn [render d_curs] in Hlen. rewrite map_length in Hlen. exact Hlen.
+Qed.
